@@ -631,6 +631,16 @@ func (i *PostingsIterator) nextDocNumAtOrAfter(atOrAfter uint64) (uint64, bool, 
 		return 0, false, nil
 	}
 
+	if atOrAfter > math.MaxUint32 {
+		// document numbers are 32 bits wide: nothing is at or after this
+		// target (truncating it would wrap around), the iteration is over
+		i.Actual.AdvanceIfNeeded(math.MaxUint32)
+		if i.Actual.HasNext() {
+			i.Actual.Next()
+		}
+		return 0, false, nil
+	}
+
 	if i.postings.postings == i.ActualBM {
 		return i.nextDocNumAtOrAfterClean(atOrAfter)
 	}
